@@ -137,7 +137,7 @@ def binop(fr, op, l, r, node):
                 a, b = seq_bits(fr, l, kind), seq_bits(fr, r, kind)
             except Abort:
                 raise PathRaise("TypeError", f"cannot concatenate {type(l).__name__} and {type(r).__name__} at {fr.fi.module.relpath}:{node.lineno}")
-            return ABits(a + b, kind)
+            return ABits(a + b, kind, l.endian if isinstance(l, ABits) else r.endian)
         if isinstance(l, BitArr) and isinstance(r, BitArr):
             return BitArr(list(l) + list(r))
         if isinstance(l, (list, tuple)) and isinstance(r, (list, tuple)):
@@ -152,6 +152,11 @@ def binop(fr, op, l, r, node):
             return ABits(l.items * const_of(fr, r), l.kind)
     if isinstance(op, ast.Mod) and isinstance(l, str):
         return I.opaque("string formatting")
+    if isinstance(l, ABits) and l.kind == "ba" and isinstance(op, (ast.LShift, ast.RShift)) and const_of(fr, r) is not None:
+        k = min(const_of(fr, r), len(l.items))
+        if isinstance(op, ast.LShift):
+            return ABits(l.items[k:] + [ZERO] * k, "ba", l.endian)
+        return ABits([ZERO] * k + l.items[:len(l.items) - k], "ba", l.endian)
     # bitarray bitwise ops
     if isinstance(l, ABits) and isinstance(r, (ABits, BitArr)) and isinstance(op, (ast.BitXor, ast.BitAnd, ast.BitOr)):
         rb = fr.to_bitlist(r)
@@ -349,6 +354,21 @@ def compare(fr, op, l, r, node):
     # orderings
     if isinstance(l, AOpq) or isinstance(r, AOpq):
         return I.opaque("ordering with opaque")
+    if isinstance(l, ABits) and isinstance(r, (ABits, BitArr)) and l.kind == "ba":
+        rb = I.simp_bits(fr.to_bitlist(r))
+        lb = I.simp_bits(l.items)
+        if len(rb) == len(lb) and rb and all(isinstance(x, F) and x.is_const for x in rb):
+            pat = [x.c for x in rb]
+            if pat[0] == 1 and not any(pat[1:]):
+                # l >= 100..0  <=>  first bit set ;  l < 100..0 <=> first bit clear
+                if isinstance(op, ast.GtE):
+                    return AInt([lb[0]], isbool=True)
+                if isinstance(op, ast.Lt):
+                    return AInt([lb[0] ^ 1], isbool=True)
+            if all(isinstance(x, F) and x.is_const for x in lb):
+                from .model import CMP
+                return CMP[type(op)]([x.c for x in lb], pat)
+        return I.opaque("lexicographic bitarray comparison")
     lc, rc = const_of(fr, l), const_of(fr, r)
     if lc is not None and rc is not None:
         from .model import CMP
@@ -512,6 +532,9 @@ def getattr_(fr, base, attr, node):
     if isinstance(base, ClassRef):
         ci = base.info
         if repo.class_attr_owner(ci, attr) is not None:
+            pre = I.st.__dict__.get("class_state", {}).get((repo.class_attr_owner(ci, attr).qualname, attr))
+            if pre is not None:
+                return pre
             try:
                 v = repo.class_const(ci, attr)
             except Unfoldable as e:
@@ -585,16 +608,92 @@ def symbolic_field(fr, obj: AObj, attr: str):
 # ------------------------------------------------------------------------------------------------ subscripts
 
 
+def bitvector_lookup(fr, base, key, node):
+    """T[key] for a constant table of bit strings that is not linear: per-bit finite functions"""
+    from .bitabs import fin_to_bit
+    rows = []
+    for e in base:
+        bits = fr.I.simp_bits(e.items) if isinstance(e, ABits) else [cbit(x) for x in e]
+        if not all(isinstance(b, F) and b.is_const for b in bits):
+            raise Abort("table of non-constant bit strings indexed by data")
+        rows.append([b.c for b in bits])
+    w = len(rows[0])
+    out = []
+    for j in range(w):
+        v = try_lift(lambda k, j=j: rows[k][j], key)
+        if v is TOO_WIDE:
+            raise Abort(f"non-linear table lookup with a wide data-dependent key at {fr.fi.module.relpath}:{node.lineno}")
+        if isinstance(v, AFin):
+            if any(isinstance(t, _Raises) for t in v.table):
+                raise PartialRaise("IndexError", f"{fr.fi.module.relpath}:{node.lineno}")
+            out.append(fin_to_bit(v))
+        elif isinstance(v, _Raises):
+            raise PathRaise(v.exc, f"lookup at {fr.fi.module.relpath}:{node.lineno}")
+        else:
+            out.append(cbit(v))
+    return ABits(out, base[0].kind if isinstance(base[0], ABits) else "ba")
+
+
+def linear_lookup(fr, base, key):
+    """T[key] for a constant table with 2^k entries of equal-width bit strings that is GF(2)-linear
+    (T[i^j] = T[i]^T[j], verified exhaustively on the basis decomposition): exact for affine key bits"""
+    if not isinstance(base, list) or not isinstance(key, AInt) or key.ext is not None:
+        return None
+    n = len(base)
+    k = n.bit_length() - 1
+    if n != 1 << k or k == 0:
+        return None
+    rows = []
+    for e in base:
+        if isinstance(e, ABits):
+            bits = fr.I.simp_bits(e.items)
+            if not all(isinstance(b, F) and b.is_const for b in bits):
+                return None
+            rows.append(tuple(b.c for b in bits))
+        elif isinstance(e, BitArr):
+            rows.append(tuple(e))
+        else:
+            return None
+    w = len(rows[0])
+    if any(len(r) != w for r in rows) or any(rows[0]):
+        return None
+    basis = [rows[1 << i] for i in range(k)]
+    for idx in range(n):
+        acc = [0] * w
+        for i in range(k):
+            if idx >> i & 1:
+                acc = [x ^ y for x, y in zip(acc, basis[i])]
+        if tuple(acc) != rows[idx]:
+            return None
+    kb = [fr.I.simp(key.bit(i)) for i in range(max(k, len(key.bits)))]
+    if any(not (isinstance(b, F) and b.is_const and b.c == 0) for b in kb[k:]):
+        return None
+    out = []
+    for j in range(w):
+        acc = ZERO
+        for i in range(k):
+            if basis[i][j]:
+                acc = acc ^ kb[i]
+        out.append(acc)
+    kind = base[0].kind if isinstance(base[0], ABits) else "ba"
+    return ABits(out, kind)
+
+
 def subscript(fr, base, sl, node):
     I = fr.I
     if isinstance(base, AOpq):
         return I.opaque("subscript of opaque")
-    if isinstance(base, (list, tuple, dict)) and not isinstance(sl, ast.Slice) and not any(is_abs(x) for x in (base.values() if isinstance(base, dict) else base)):
+    if isinstance(base, (list, tuple, dict)) and not isinstance(sl, ast.Slice) and not any(is_abs(x) and not isinstance(x, ABits) for x in (base.values() if isinstance(base, dict) else base)):
         key = fr.ev(sl)
         if isinstance(key, AInt) and const_of(fr, key) is None or isinstance(key, AFin) or (isinstance(key, tuple) and is_abs(key)):
             if isinstance(key, AInt):
                 key = AInt(I.simp_bits(key.bits), key.ext, key.interp, key.isbool)
-            v = try_lift(lambda b, k: b[k], base, key)
+            if isinstance(base, list) and base and isinstance(base[0], (ABits, BitArr)):
+                lin = linear_lookup(fr, base, key)
+                if lin is not None:
+                    return lin
+                return bitvector_lookup(fr, base, key, node)
+            v = try_lift(lambda k: base[k], key)
             if v is TOO_WIDE:
                 raise Abort(f"table lookup with a data-dependent key that is too wide at {fr.fi.module.relpath}:{node.lineno}")
             if isinstance(v, _Raises):
@@ -1172,6 +1271,8 @@ def bits_method(fr, b: ABits, name, args, kw, n):
             return ABits(items, "bytes")
         if len(items) % 8:
             items += [ZERO] * (8 - len(items) % 8)
+        if b.endian == "little":
+            items = [x for i in range(0, len(items), 8) for x in reversed(items[i:i + 8])]
         return ABits(items, "bytes")
     if name == "tolist":
         return ABits(list(b.items), "list")
@@ -1188,7 +1289,10 @@ def bits_method(fr, b: ABits, name, args, kw, n):
         if isinstance(v, AOpq):
             raise Abort("frombytes of opaque")
         vb = fr.as_bytes_val(v)
-        b.items.extend(vb.items)
+        items = list(vb.items)
+        if b.endian == "little":
+            items = [x for i in range(0, len(items), 8) for x in reversed(items[i:i + 8])]
+        b.items.extend(items)
         return None
     if name == "invert":
         if args:
